@@ -93,6 +93,9 @@ def match_known(known, prop, h, tag):
 
 
 def main():
+    import signal
+    signal.signal(signal.SIGTERM, kani.kill_live)
+    signal.signal(signal.SIGINT, kani.kill_live)
     ap = argparse.ArgumentParser()
     ap.add_argument("prop")
     ap.add_argument("--tier", default=os.environ.get("VERIF_TIER", "quick"))
